@@ -31,9 +31,22 @@ def parse_reply(r):
     return d
 
 
+def mask_refs(r, opaque):
+    """blank the references the implementation side cannot observe (calls of the generated api that do not return them)"""
+    if r is None or not r.startswith('OK '): return r
+    out = []
+    for t in r.split(' '):
+        if t.startswith('refs=') and t != 'refs=-':
+            v = t[5:].split(',')
+            t = 'refs=' + ','.join('x' if i in opaque else x for i, x in enumerate(v))
+        out.append(t)
+    return ' '.join(out)
+
+
 class Engine:
-    def __init__(self, ctx):
+    def __init__(self, ctx, with_gen_api=False):
         self.ctx = ctx
+        self.with_gen_api = with_gen_api
         self.corpus = bu.corpus()
         self.by_name = {s.name: s for s in self.corpus}
         self._build()
@@ -60,6 +73,7 @@ class Engine:
                 continue
             open(os.path.join(d, 'glue.h'), 'w').write(bu.gen_glue(s))
             self.gdir[s.name] = d
+            open(os.path.join(d, 'glueb.h'), 'w').write(bu.gen_glue_build(s))
         objs = ctx.rt_objs(san=True, defs=['-DNDEBUG'])
         hdir = os.path.join(lib.ROOT, 'harness')
         jobs = {}
@@ -69,7 +83,29 @@ class Engine:
             for name, d in self.gdir.items():
                 jobs[name] = ex.submit(ctx.cc, [os.path.join(hdir, 'buf_check.c')] + objs, os.path.join(d, 'buf_check'),
                                        san=True, defs=['-DNDEBUG'], incs=['-I' + hdir, '-I' + d])
+                if self.with_gen_api:
+                    # -fno-sanitize=alignment: the generated builder writes structs with force_align > 8 through pointers into the builder's
+                    # data stack, which is only 8-aligned (reported once by the dedicated probe in checks/c03.py, key
+                    # generated-builder-misaligned-struct-access); without this every case with such a struct would only repeat that report
+                    jobs['G' + name] = ex.submit(ctx.cc, [os.path.join(hdir, 'build_script.c')] + objs, os.path.join(d, 'build_gen'),
+                                                 san=True, defs=['-DNDEBUG', '-DWITH_GLUE'], incs=['-I' + hdir, '-I' + d], extra=['-fno-sanitize=alignment'])
+                    if name == 'bnest':
+                        jobs['P' + name] = ex.submit(ctx.cc, [os.path.join(hdir, 'build_script.c')] + objs, os.path.join(d, 'build_gen_al'),
+                                                     san=True, defs=['-DNDEBUG', '-DWITH_GLUE'], incs=['-I' + hdir, '-I' + d])
         self.H = lib.Harness(jobs['build'].result())
+        self.HG = {}
+        for name in self.gdir:
+            if 'G' + name in jobs:
+                try:
+                    self.HG[name] = lib.Harness(jobs['G' + name].result())
+                except lib.BuildFailure as e:
+                    ctx.violation('generated-builder-does-not-compile:' + name, 'generated builder code for corpus schema %s does not compile: %s' % (name, str(e)[-400:]),
+                                  {'schema': self.by_name[name].fbs()})
+        self.HP = {}
+        for name in self.gdir:
+            if 'P' + name in jobs:
+                try: self.HP[name] = lib.Harness(jobs['P' + name].result())
+                except lib.BuildFailure: pass
         self.BC = {}
         for name in self.gdir:
             try:
@@ -94,7 +130,7 @@ class Engine:
                 'ident': rng.choice(idents), 'with_size': rng.random() < 0.35, 'style': style,
                 'early': style == 'se' and rng.random() < 0.3, 'align': 0}
 
-    def make_case(self, rng, s, root=None, maxdepth=None, size=1.0, klass=None, opts=None, styles=True, nested_bias=False):
+    def make_case(self, rng, s, root=None, maxdepth=None, size=1.0, klass=None, opts=None, styles=True, nested_bias=False, gen_api=False):
         root = root or s.root
         vg = bu.ValueGen(s, rng, maxdepth=maxdepth if maxdepth is not None else rng.choice([1, 2, 2, 3]), size=size)
         if root in s.tables:
@@ -102,6 +138,7 @@ class Engine:
         else:
             node = bu.Node('bytes', vg.inline(root), root)
         g = bu.ScriptGen(s, rng, styles=styles)
+        g.gen_api = gen_api and s.name in self.HG
         o = dict(opts or self.toplevel_opts(rng, s, root))
         if o['style'] == 'c' and bu.has_nested(node):
             # flatcc_builder.h: create_buffer is not suitable as a container for buffers created with start/end_buffer
@@ -112,9 +149,18 @@ class Engine:
     # ------------------------------------------------------------------ running
     def run_builds(self, cases):
         ctx = self.ctx
-        hres = lib.run_harness_resilient(self.H, [c.h for c in cases])
+        groups = {}
+        for i, c in enumerate(cases):
+            groups.setdefault(c.schema.name if c.gen.gen_api else None, []).append(i)
+        hres = [None] * len(cases)
+        with concurrent.futures.ThreadPoolExecutor(max_workers=8) as ex:
+            futs = {k: ex.submit(lib.run_harness_resilient, self.H if k is None else self.HG[k], [cases[i].h for i in idx]) for k, idx in groups.items()}
+            for k, f in futs.items():
+                for i, r in zip(groups[k], f.result()): hres[i] = r
         mres = ctx.run_model('builder', [c.m for c in cases])
         for c, a, b in zip(cases, hres, mres):
+            if c.gen.opaque:
+                a, b = mask_refs(a, c.gen.opaque), mask_refs(b, c.gen.opaque)
             c.hrep, c.mrep = a, b
             c.himpl, c.mimpl = parse_reply(a), parse_reply(b)
 
@@ -161,6 +207,8 @@ class Engine:
     # ------------------------------------------------------------------ classification helpers
     @staticmethod
     def crash_key(rep):
+        if 'misaligned address' in rep:
+            return 'ubsan:misaligned-access'        # one key whatever generated accessor / dump function trips over it
         m = re.search(r'#0 0x[0-9a-f]+ in (\w+)', rep) or re.search(r'in (\w+) ', rep)
         kind = 'asan'
         m2 = re.search(r'AddressSanitizer: ([\w-]+)', rep)
@@ -168,3 +216,39 @@ class Engine:
         elif 'runtime error' in rep: kind = 'ubsan'
         elif 'Assertion' in rep: kind = 'assert'
         return '%s:%s' % (kind, m.group(1) if m else 'unknown')
+
+
+def replay(E, ctx):
+    """bin/check Cxx --replay file: re-run the recorded input (build script through implementation and model, recorded verify /
+    dump / decode lines) and report whether it still fails."""
+    import json
+    rep = json.load(open(ctx.replay_in))
+    name = rep.get('schema')
+    hl, ml = rep.get('harness_line'), rep.get('model_line')
+    key = rep.get('key', 'replay')
+    still = []
+    if hl:
+        gen = any(t.startswith('G') for t in hl.split()[1:])
+        H = E.HG.get(name) if gen else E.H
+        if gen and name == 'bnest' and key == 'generated-builder-misaligned-struct-access': H = E.HP.get(name, H)
+        res = lib.run_harness_resilient(H, [hl])[0]
+        ctx.log('replay implementation:', res[:700])
+        if res.startswith('CRASH') or res.startswith('FAIL'): still.append('implementation: ' + res[:200])
+        if ml:
+            m = ctx.run_model('builder', [ml])[0]
+            ctx.log('replay model         :', m[:700])
+            if not gen and parse_reply(res) and parse_reply(m) and res != m: still.append('implementation and (corrected) model differ')
+    for k in ('verify_line', 'dump_line'):
+        if rep.get(k) and name in E.BC and len(rep[k].split()) > 3:
+            r = E.run_bc(name, [rep[k]])[0]
+            ctx.log('replay %s:' % k, r[:300])
+            if k == 'verify_line' and not r.startswith('0 ') and 'accepts' not in key: still.append('verifier: ' + r[:100])
+    if rep.get('dec_line'):
+        r = ctx.run_model('builder', [rep['dec_line']])[0]
+        ctx.log('replay independent decoder:', r[:300])
+        if r == 'NONE': still.append('independent decoder rejects')
+    ctx.count(str(rep.get('key')), klass='replay')
+    if still:
+        ctx.violation(key, 'replayed input still fails: ' + '; '.join(still), rep)
+    else:
+        ctx.log('replayed input no longer fails')
